@@ -30,6 +30,7 @@ SQ = ["I", "H", "X", "Y", "Z", "S", "Sadj", "T", "Tadj", "SX"]
 FIXED = {n: i for i, n in enumerate(SQ)}
 FIXED.update({"CZ": 10, "CNOT": 11, "CZ_Heralded": 12, "CNOT_Heralded": 13, "CCZ": 14, "CCNOT": 15})
 NTARGETS = {"CNOT": 2, "CNOT_Heralded": 2, "CCNOT": 3}
+DEFAULT_TARGET = {"CNOT": 1, "CNOT_Heralded": 1, "CCNOT": 2}       # as documented in the constructors' signatures
 ROT = {"P": 0, "Rx": 1, "Ry": 2, "Rz": 3}
 NQ = {"CZ": 2, "CNOT": 2, "CZ_Heralded": 2, "CNOT_Heralded": 2, "CCZ": 3, "CCNOT": 3}
 K2 = {"CZ": 1 / 9, "CNOT": 1 / 9, "CZ_Heralded": 1 / 16, "CNOT_Heralded": 1 / 16, "CCZ": 1 / 72, "CCNOT": 1 / 72}
@@ -144,6 +145,10 @@ class C13:
             "(targets 0,1) and CCNOT (targets 0,1,2) plus invalid targets; P/Rx/Ry/Rz at >= 200 angles each tier "
             "(0, +-pi/2, +-pi, 2pi, 4pi, tiny, large, negative, random); SWAP on distinct / overlapping / identical / negative "
             "mode tuples up to mode 9 and malformed tuples (wrong length, float/str/bool/None entries). "
+            "Target gates also built with the documented default target and with a positional argument; rotation angles also as "
+            "odd/even multiples of pi up to 8 pi with 1e-9 neighbours, Python ints and numpy scalars; SWAP tuples also as lists. "
+            "History (oracle): the gate object is edited in place (and the array it handed out overwritten) before a second gate "
+            "with the same arguments is built and compared with the first observation. "
             "Non-trivial = a multi-qubit gate, a rotation whose angle is not a multiple of pi/2, or a SWAP that compiles; "
             "distinct = distinct JSON")
     CHUNK = 40
@@ -164,16 +169,27 @@ class C13:
                     cases.append(dict(kind="gate", name=name, tq=tq))
                 for tq in [-1, NTARGETS[name], NTARGETS[name] + 1, 7, -2, ["str", "a"], ["none", 0], ["float", 0.5]]:
                     cases.append(dict(kind="gate", name=name, tq=tq))
+                # API forms: the documented default target (no argument) and the positional argument
+                cases.append(dict(kind="gate", name=name, tq=DEFAULT_TARGET[name], form="default"))
+                for tq in range(NTARGETS[name]):
+                    cases.append(dict(kind="gate", name=name, tq=tq, form="positional"))
+                cases.append(dict(kind="gate", name=name, tq=NTARGETS[name], form="positional"))
             else:
                 cases.append(dict(kind="gate", name=name, tq=None))
         # rotations
         pi = math.pi
         special = [0.0, pi, -pi, 2 * pi, -2 * pi, pi / 2, -pi / 2, 3 * pi / 2, 4 * pi, pi / 4, -pi / 4, pi / 3, 1e-9, -1e-9,
                    1e-6, 1e-3, -1e-3, 1.0, -1.0, 100.0, -250.5, 6.283185307179586, 3.141592653589793, 1e-12, 12345.678]
+        # boundary angles the random stream never draws: odd and even multiples of pi beyond 2 pi (half-angle sign),
+        # their 1e-9 neighbourhoods, Python ints, numpy scalars
+        special += [3 * pi, -3 * pi, 5 * pi, -5 * pi, 6 * pi, 7 * pi, 8 * pi, pi + 1e-9, pi - 1e-9, -pi + 1e-9, 3 * pi - 1e-9,
+                    2 * pi + 1e-9, -2 * pi - 1e-9, 0, 1, 2, 3, -1, -4, 7, 13]
         nrand = 175 if tier == "quick" else 1500
         for name in ROT:
             for th in special:
                 cases.append(dict(kind="rot", name=name, theta=th))
+            for th, tag in ((0.7, "float64"), (-2.5, "float64"), (pi, "float64"), (3, "int64"), (0, "int64")):
+                cases.append(dict(kind="rot", name=name, theta=th, np=tag))
             for _ in range(nrand):
                 r = rng.random()
                 if r < 0.6:
@@ -195,7 +211,7 @@ class C13:
             r = rng.random()
             if r < 0.6:
                 m = rng.sample(range(rng.randint(4, 10)), 4)
-                cases.append(dict(kind="swap", q1=m[:2], q2=m[2:]))
+                cases.append(dict(kind="swap", q1=m[:2], q2=m[2:], lists=rng.random() < 0.3))
             elif r < 0.75:
                 m = [rng.randint(-1, 5) for _ in range(4)]
                 cases.append(dict(kind="swap", q1=m[:2], q2=m[2:]))
@@ -215,13 +231,19 @@ class C13:
         k = c["kind"]
         if k == "gate":
             cls = getattr(qubit, c["name"])
-            if c["tq"] is None:
+            if c["tq"] is None or c.get("form") == "default":
                 return cls()
+            if c.get("form") == "positional":
+                return cls(_pyval(c["tq"]))
             return cls(target_qubit=_pyval(c["tq"]))
         if k == "rot":
-            return getattr(qubit, c["name"])(c["theta"])
+            th = c["theta"]
+            if c.get("np"):
+                th = getattr(np, c["np"])(th)
+            return getattr(qubit, c["name"])(th)
         if k == "swap":
-            return qubit.SWAP(tuple(_pyval(x) for x in c["q1"]), tuple(_pyval(x) for x in c["q2"]))
+            seq = list if c.get("lists") else tuple
+            return qubit.SWAP(seq(_pyval(x) for x in c["q1"]), seq(_pyval(x) for x in c["q2"]))
         raise KeyError(k)
 
     def impl(self, c):
@@ -248,7 +270,7 @@ class C13:
                 tq = BAD_TARGET_SENTINEL
             return f"run_gate {cn(FIXED[c['name']])} {cz(tq)}"
         if k == "rot":
-            th = c["theta"]
+            th = float(getattr(np, c["np"])(c["theta"])) if c.get("np") else c["theta"]
             a = th if c["name"] == "P" else th / 2
             cc, ss = Fraction(float(np.cos(a))), Fraction(float(np.sin(a)))
             return (f"run_rot {cn(ROT[c['name']])} {cz(cc.numerator)} {cz(cc.denominator)} "
@@ -312,10 +334,15 @@ class C13:
         else:
             nq = NQ.get(c["name"], 1)
             states = [lw.State(dual_rail(b)) for b in _bits(nq)]
-            M = textbook(c["name"], c.get("tq"), c.get("theta"))
+            th = c.get("theta")
+            if th is not None and c.get("np"):
+                th = float(getattr(np, c["np"])(th))
+            M = textbook(c["name"], c.get("tq"), th)
             k2 = K2.get(c["name"], 1.0)
         arr = np.array(sim.simulate(states, states).array)          # arr[in, out]
         A = arr.T                                                   # A[b', b] = <b'| gate |b>
+        if not np.all(np.isfinite(A)):
+            return f"{c.get('name', 'SWAP')}: amplitudes are not finite numbers"
         # one common scalar: fix it on the largest entry of the textbook matrix
         idx = np.unravel_index(np.argmax(np.abs(M)), M.shape)
         kk = A[idx] / M[idx]
@@ -337,6 +364,23 @@ class C13:
                     return f"{c['name']}: accepted output {list(o)} outside the qubit subspace has amplitude {leak:.3g}"
             if len(res.outputs) != 10:
                 return f"{c['name']}: expected 10 two-photon outputs on 4 modes, got {len(res.outputs)}"
+        # history: a gate object that was edited in place (and the arrays it handed out) must not show up in the next
+        # gate built with the same arguments (shared module-level instances, cached sub-circuits or matrices)
+        try:
+            u = g.U_full
+            u[0, 0] = 99.0
+            g.ps(0, 0.3)
+            if g.n_modes >= 2:
+                g.bs(0)
+        except Exception as e:  # noqa: BLE001
+            return f"editing the gate circuit in place raised {type(e).__name__}: {e}"
+        g2 = self._make(c)
+        u2 = np.asarray(g2.U_full)
+        u0 = np.array([[complex(*z) for z in row] for row in obs["ok"][5]])
+        if u2.shape != u0.shape or np.max(np.abs(u2 - u0)) > UTOL or g2.n_modes != obs["ok"][0] \
+                or [[a, b] for a, b in g2.heralds["input"].items()] != obs["ok"][2]:
+            return (f"{nm}(tq={c.get('tq')}, theta={c.get('theta')}): a gate built after an earlier gate object with the same arguments "
+                    f"was edited in place differs from the first one")
         return None
 
     def nontrivial(self, c, obs):
